@@ -217,7 +217,7 @@ type srvModel struct {
 // serverAuth applies a server authorization post (C17): entries appear only
 // with a valid GCA signature, change only to banned, never back.
 func (m *srvModel) serverAuth(as server.AuthorizedServer) bool {
-	if !m.Registered || !glow.Verify(m.GCA, refServerSigningBytes(as), as.GCAAuthorization) {
+	if !m.Registered || !refVerify(m.GCA, refServerSigningBytes(as), as.GCAAuthorization) {
 		return false
 	}
 	for i := range m.Servers {
@@ -235,11 +235,11 @@ func (m *srvModel) serverAuth(as server.AuthorizedServer) bool {
 // migrate applies a migration order: outer signature by the registered GCA,
 // every new server signed by the new GCA.
 func (m *srvModel) migrate(em server.EquipmentMigration) bool {
-	if !m.Registered || !glow.Verify(m.GCA, refMigrationSigningBytes(em), em.Signature) {
+	if !m.Registered || !refVerify(m.GCA, refMigrationSigningBytes(em), em.Signature) {
 		return false
 	}
 	for _, s := range em.NewServers {
-		if !glow.Verify(em.NewGCA, refServerSigningBytes(s), s.GCAAuthorization) {
+		if !refVerify(em.NewGCA, refServerSigningBytes(s), s.GCAAuthorization) {
 			return false
 		}
 	}
@@ -283,7 +283,7 @@ func (m *srvModel) acceptable(dg []byte, now uint32) (ok bool, why string) {
 	if !okd || m.Bans[id] {
 		return false, "unknown-or-banned-device"
 	}
-	if !glow.Verify(dev.PublicKey, refReportSigningBytes(id, ts, power), sig) {
+	if !refVerify(dev.PublicKey, refReportSigningBytes(id, ts, power), sig) {
 		return false, "bad-signature"
 	}
 	if int64(ts) < int64(now)-mHalfWidth || int64(ts) > int64(now)+mHalfWidth {
@@ -390,7 +390,7 @@ func (m *srvModel) register(k glow.PublicKey, sig glow.Signature) bool {
 	if m.Registered {
 		return false
 	}
-	if !glow.Verify(m.Temp, refRegistrationSigningBytes(k), sig) {
+	if !refVerify(m.Temp, refRegistrationSigningBytes(k), sig) {
 		return false
 	}
 	m.Registered = true
@@ -412,7 +412,7 @@ func (m *srvModel) authorize(ea glow.EquipmentAuthorization) authOutcome {
 	if !m.Registered {
 		return authRefused
 	}
-	if !glow.Verify(m.GCA, refAuthSigningBytes(ea), ea.Signature) {
+	if !refVerify(m.GCA, refAuthSigningBytes(ea), ea.Signature) {
 		return authRefused
 	}
 	if m.Bans[ea.ShortID] {
